@@ -7,6 +7,12 @@ most-derived-first walk finds (`ClassSpec.mro`) bound to `o`; `super.name` walks
 the class the code textually sits in; statics belong to the class they are declared in; a call is
 "evaluate the callee, evaluate the arguments, apply".  No indices, no copied tables, no fusion.
 
+Which class a declaration inherits from is what the source states: `class A : P` inherits from what
+the variable `P` denotes where the class is declared (a local, a module variable, or the built-in
+`Object` if the program has no `Object` of its own); `class A` inherits from the built-in `Object`,
+whatever the program calls `Object` (a class without parent is the chain's end: `parent = none`).
+Classes may be declared at module level or inside function bodies and blocks.
+
 Total: every recursive call spends one unit of `fuel` (a bound on the evaluation *depth*).
 -/
 import LaytheVerif.Model.ClassSpec
@@ -32,6 +38,9 @@ inductive Stmt where
   | ret (e : Expr)
   | setf (obj : Expr) (name : String) (e : Expr)      -- `obj.name = e;`
   | tryS (body : List Stmt) (handler : List Stmt)     -- `try {body} catch e: Error { print("caught …"); handler }`
+  /-- a class declared in a block: `class name [: parent] { init(ps) {..} m(ps) {..}.. static s(ps) {..}.. }` -/
+  | classS (name : String) (parent : Option String) (init : Option (List String × List Stmt))
+      (methods : List (String × List String × List Stmt)) (statics : List (String × List String × List Stmt))
 end
 
 instance : Inhabited Expr := ⟨.nil⟩
@@ -56,6 +65,14 @@ inductive Item where
   | fn (f : FunSrc)
   | stmt (s : Stmt)
   deriving Inhabited
+
+def FunSrc.ofTriple (p : String × List String × List Stmt) : FunSrc := { name := p.1, params := p.2.1, body := p.2.2 }
+
+/-- the declaration a `classS` statement carries -/
+def ClassDecl.ofParts (name : String) (parent : Option String) (init : Option (List String × List Stmt))
+    (methods statics : List (String × List String × List Stmt)) : ClassDecl :=
+  { name := name, parent := parent, init := init.map fun p => { name := "init", params := p.1, body := p.2 },
+    methods := methods.map FunSrc.ofTriple, statics := statics.map FunSrc.ofTriple }
 
 /-! ### which names an initialiser assigns on `self` (not looking inside lambdas) -/
 
@@ -89,6 +106,7 @@ structure Code where
   lexCls : Option Nat        -- the class the code textually sits in
   isInit : Bool := false
   isStatic : Bool := false
+  env : List (String × Val) := []     -- methods of a class declared in a block see the variables of that block
   deriving Inhabited
 
 structure ClassRt where
@@ -117,6 +135,7 @@ structure World where
   globals : List (String × Val) := []
   out : Array String := #[]
   d20 : Nat := 0                       -- how many errors were raised at a D20-shaped site
+  declaresObject : Bool := false       -- the program declares a module variable named `Object` somewhere
   deriving Inhabited
 
 structure Err where
@@ -223,6 +242,67 @@ def setProp (recv : Val) (name : String) (v : Val) : M Unit := do
 def arityError (name : String) (want got : Nat) : String :=
   name ++ " expected " ++ toString want ++ " argument(s) but received " ++ toString got ++ "."
 
+/-! ### class declarations -/
+
+def addCode (c : Code) : M Nat := do
+  let w ← get
+  set { w with codes := w.codes.push c }
+  pure w.codes.size
+
+def addCodes (lexCls : Option Nat) (isStatic : Bool) (env : List (String × Val)) : List FunSrc → M (List (String × Nat))
+  | [] => pure []
+  | f :: r => do
+    let id ← addCode { name := f.name, params := f.params, body := f.body, lexCls := lexCls, isStatic := isStatic, env := env }
+    let rest ← addCodes lexCls isStatic env r
+    pure ((f.name, id) :: rest)
+
+/-- `op_inherit`'s operand check -/
+def superOfVal : Val → M (Option Nat)
+  | .cls c => pure (some c)
+  | _ => throwErr "RuntimeError" "Superclass must be a class."
+
+/-- **the class a declaration inherits from.**  No parent in the source: the built-in `Object` (the end
+of the chain), whatever `env` and the module variables bind the name `Object` to.  An explicit parent
+is an ordinary variable read where the class is declared: the innermost local, else the module
+variable, else — for `Object` only, if the program has no module variable of that name — the built-in. -/
+def resolveSuper (env : List (String × Val)) : Option String → M (Option Nat)
+  | none => pure none
+  | some p => do
+    match lookupEnv env p with
+    | some v => superOfVal v
+    | none =>
+      let w ← get
+      match lookupEnv w.globals p with
+      | some v => superOfVal v
+      | none =>
+        if p = "Object" && !w.declaresObject then pure none
+        else throw (.unsupported ("superclass " ++ p ++ " is read before it is defined"))
+
+/-- a class declaration; the parent is evaluated now and remembered (lexical `super`).  `top`: the
+class is a module variable, otherwise a local of the block (the caller binds it).  Returns the class. -/
+def declareClass (d : ClassDecl) (env : List (String × Val)) (top : Bool) : M Nat := do
+  let parent ← resolveSuper env d.parent
+  let w ← get
+  let cid := w.classes.size
+  -- reserve the slot so that the codes can refer to the class they sit in
+  set { w with classes := w.classes.push { name := d.name, parent := parent,
+                                            body := { initFields := [], init := none, methods := [], statics := [] },
+                                            statics := [] },
+               globals := if top then (d.name, Val.cls cid) :: w.globals else w.globals }
+  let cenv := if top then [] else (d.name, Val.cls cid) :: env
+  let initId ← match d.init with
+    | none => pure none
+    | some f => do
+      let id ← addCode { name := "init", params := f.params, body := f.body, lexCls := some cid, isInit := true, env := cenv }
+      pure (some id)
+  let ms ← addCodes (some cid) false cenv d.methods
+  let ss ← addCodes (some cid) true cenv d.statics
+  let body : ClassBody := {
+    initFields := match d.init with | some f => assignedStmts f.body | none => []
+    init := initId, methods := ms, statics := ss }
+  modify fun w => { w with classes := w.classes.set! cid { name := d.name, parent := parent, body := body, statics := ss } }
+  pure cid
+
 mutual
 
 def evalExpr (fuel : Nat) (ctx : Ctx) (env : List (String × Val)) (e : Expr) : M Val :=
@@ -320,7 +400,7 @@ def callVal (fuel : Nat) (callee : Val) (argv : List Val) : M Val :=
     | .bound recv codeId =>
       match w.codes[codeId]? with
       | none => throw (.unsupported "dangling code")
-      | some code => runCode fuel code [] (if code.isStatic then none else some recv) argv
+      | some code => runCode fuel code code.env (if code.isStatic then none else some recv) argv
     | .cls c =>
       -- a new object with every field of the chain set to nil, then the most derived initialiser
       let chain := w.chain c
@@ -332,7 +412,7 @@ def callVal (fuel : Nat) (callee : Val) (argv : List Val) : M Val :=
         match w.codes[codeId]? with
         | none => throw (.unsupported "dangling code")
         | some code =>
-          let _ ← runCode fuel code [] (some (.inst a)) argv
+          let _ ← runCode fuel code code.env (some (.inst a)) argv
           pure (.inst a)
       | none =>
         if argv.length ≠ 0 then
@@ -405,51 +485,14 @@ def execStmt (fuel : Nat) (ctx : Ctx) (env : List (String × Val)) (s : Stmt) :
             pure r
           | c => throw c)
       pure (r, env)
+    | .classS name parent init methods statics => do
+      let cid ← declareClass (ClassDecl.ofParts name parent init methods statics) env false
+      pure (none, (name, Val.cls cid) :: env)
 termination_by structural fuel
 
 end
 
-/-! ### declarations and whole programs -/
-
-def addCode (c : Code) : M Nat := do
-  let w ← get
-  set { w with codes := w.codes.push c }
-  pure w.codes.size
-
-def addCodes (lexCls : Option Nat) (isStatic : Bool) : List FunSrc → M (List (String × Nat))
-  | [] => pure []
-  | f :: r => do
-    let id ← addCode { name := f.name, params := f.params, body := f.body, lexCls := lexCls, isStatic := isStatic }
-    let rest ← addCodes lexCls isStatic r
-    pure ((f.name, id) :: rest)
-
-/-- a class declaration: the parent is evaluated now and remembered (lexical `super`) -/
-def declareClass (d : ClassDecl) : M Unit := do
-  let w ← get
-  let parent ← match d.parent with
-    | none => pure none
-    | some "Object" => pure none
-    | some p =>
-      match lookupEnv w.globals p with
-      | some (.cls c) => pure (some c)
-      | _ => throw (.unsupported ("superclass " ++ p ++ " is not a declared class"))
-  let cid := w.classes.size
-  -- reserve the slot so that the codes can refer to the class they sit in
-  set { w with classes := w.classes.push { name := d.name, parent := parent,
-                                            body := { initFields := [], init := none, methods := [], statics := [] },
-                                            statics := [] },
-               globals := (d.name, Val.cls cid) :: w.globals }
-  let initId ← match d.init with
-    | none => pure none
-    | some f => do
-      let id ← addCode { name := "init", params := f.params, body := f.body, lexCls := some cid, isInit := true }
-      pure (some id)
-  let ms ← addCodes (some cid) false d.methods
-  let ss ← addCodes (some cid) true d.statics
-  let body : ClassBody := {
-    initFields := match d.init with | some f => assignedStmts f.body | none => []
-    init := initId, methods := ms, statics := ss }
-  modify fun w => { w with classes := w.classes.set! cid { name := d.name, parent := parent, body := body, statics := ss } }
+/-! ### whole programs -/
 
 def declareFn (f : FunSrc) : M Unit := do
   let id ← addCode { name := f.name, params := f.params, body := f.body, lexCls := none }
@@ -458,8 +501,11 @@ def declareFn (f : FunSrc) : M Unit := do
 
 def runItems (fuel : Nat) : List Item → M Unit
   | [] => pure ()
-  | .cls d :: r => do declareClass d; runItems fuel r
+  | .cls d :: r => do let _ ← declareClass d [] true; runItems fuel r
   | .fn f :: r => do declareFn f; runItems fuel r
+  | .stmt (.classS name parent init methods statics) :: r => do
+    let _ ← declareClass (ClassDecl.ofParts name parent init methods statics) [] true
+    runItems fuel r
   | .stmt s :: r => do
     -- top-level `let` binds a module variable
     let (_, env) ← execStmt fuel {} [] s
@@ -473,8 +519,17 @@ structure Result where
   out : Array String
   d20 : Nat
 
+/-- the module variables a program declares -/
+def declaredNames : List Item → List String
+  | [] => []
+  | .cls d :: r => d.name :: declaredNames r
+  | .fn f :: r => f.name :: declaredNames r
+  | .stmt (.letS x _) :: r => x :: declaredNames r
+  | .stmt (.classS name _ _ _ _) :: r => name :: declaredNames r
+  | .stmt _ :: r => declaredNames r
+
 def runProgram (items : List Item) (fuel : Nat := 4000) : Result :=
-  let (r, w) := (runItems fuel items).run.run {}
+  let (r, w) := (runItems fuel items).run.run { declaresObject := (declaredNames items).contains "Object" }
   match r with
   | .ok () => { status := "Ok", out := w.out, d20 := w.d20 }
   | .error (.err e) => { status := "Err " ++ e.kind ++ (if e.d20 then "~" else "") ++ ": " ++ e.msg, out := w.out, d20 := w.d20 }
